@@ -244,7 +244,8 @@ def main():
         try:
             corr = mod.correspond(ctx)
         except Exception:  # noqa: BLE001
-            corr = {"suites": {"harness": {"cases": 0, "mismatches": [{"error": traceback.format_exc()[-1500:]}]}}, "samples": []}
+            print("harness crashed (tool failure):", traceback.format_exc()[-2000:])
+            return 2
     else:
         corr = {"suites": {"driver-build": {"cases": 0, "mismatches": [{"error": "modeldrv does not build"}]}}, "samples": []}
     phases["correspond_s"] = round(time.time() - t1, 2)
@@ -285,8 +286,8 @@ def main():
         try:
             searched = mod.search(ctx, broken, seeds)
         except Exception:  # noqa: BLE001
-            searched = None
-            ctx.notes.append("search crashed: " + traceback.format_exc()[-800:])
+            print("search crashed (tool failure):", traceback.format_exc()[-2000:])
+            return 2
         phases["search_s"] = round(time.time() - t2, 2)
         if searched and canon(searched.get("input")) in open_inputs:
             known_lines.append(f"KNOWN-FINDING: property={prop} (found again by search) {canon(searched.get('input'))[:200]}")
